@@ -35,17 +35,31 @@ struct Out<'a> {
   heap: &'a Heap,
   comments: &'a samlang_ast::source::CommentStore,
   items: Vec<String>,
-  /// (position, name, is local variable use/binder) of every identifier seen
-  idents: Vec<(Position, String, bool)>,
+  /// (position, name, is local variable use/binder, context) of every identifier seen; context =
+  /// kind of the enclosing node for `name` nodes (tparam, member, toplevel, param, P.Id, field, ...)
+  /// or the node's own kind (E.LocalId, E.ClassId)
+  idents: Vec<(Position, String, bool, String)>,
+  stack: Vec<(usize, String)>,
 }
 
 impl Out<'_> {
+  fn enter(&mut self, depth: usize, kind: &str) -> String {
+    while self.stack.last().map(|(d, _)| *d >= depth).unwrap_or(false) {
+      self.stack.pop();
+    }
+    let parent = self.stack.last().map(|(_, k)| k.clone()).unwrap_or_else(|| "module".to_string());
+    self.stack.push((depth, kind.to_string()));
+    parent
+  }
   fn node(&mut self, depth: usize, kind: &str, l: &Location) {
+    self.enter(depth, kind);
     self.items.push(format!("{depth}:{kind}:{}", span(l)));
   }
   fn named(&mut self, depth: usize, kind: &str, l: &Location, name: &str, local: bool) {
+    let parent = self.enter(depth, kind);
     self.items.push(format!("{depth}:{kind}:{}:{}", span(l), hex(name.as_bytes())));
-    self.idents.push((l.start, name.to_string(), local));
+    let ctx = if kind == "name" { parent } else { kind.to_string() };
+    self.idents.push((l.start, name.to_string(), local, ctx));
   }
   fn id(&mut self, depth: usize, id: &Id, local: bool) {
     let name = id.name.as_str(self.heap).to_string();
@@ -424,12 +438,12 @@ impl Out<'_> {
   }
 }
 
-fn parse_and_walk(text: &str, heap: &mut Heap) -> (usize, Vec<String>, Vec<(Position, String, bool)>, Vec<Location>) {
+fn parse_and_walk(text: &str, heap: &mut Heap) -> (usize, Vec<String>, Vec<(Position, String, bool, String)>, Vec<Location>) {
   let mut error_set = ErrorSet::new();
   let module =
     samlang_parser::parse_source_module_from_text(text, ModuleReference::DUMMY, heap, &mut error_set);
   let syn = error_set.errors().iter().filter(|e| e.is_syntax_error()).count();
-  let mut o = Out { heap, comments: &module.comment_store, items: Vec::new(), idents: Vec::new() };
+  let mut o = Out { heap, comments: &module.comment_store, items: Vec::new(), idents: Vec::new(), stack: Vec::new() };
   o.module(&module);
   let errs: Vec<Location> = error_set.errors().iter().map(|e| e.location).collect();
   for l in &errs {
@@ -529,7 +543,18 @@ impl Svc {
     let max_pos: usize =
       std::env::var("C14_MAX_POS").ok().and_then(|s| s.parse().ok()).unwrap_or(usize::MAX);
     let stride = if idents.len() > max_pos { idents.len().div_ceil(max_pos.max(1)) } else { 1 };
-    for (i, (pos, name, local)) in idents.iter().enumerate() {
+    // the real lexer's tokens: the expected span of the identifier under a position (the token model
+    // is tied to Model/Lexer.lean by the `lex` protocol and `pos_tracking_exact` / `name_span_exact`)
+    let toks: Vec<(u32, u32, u32, String)> = {
+      let mut h2 = Heap::new();
+      let mut es2 = ErrorSet::new();
+      samlang_parser::verif_hooks::produce_tokens(text, ModuleReference::DUMMY, &mut h2, &mut es2)
+        .into_iter()
+        .filter(|(k, _, (l0, _, l1, _))| (*k == "upper" || *k == "lower" || *k == "kw") && l0 == l1)
+        .map(|(_, t, (l0, c0, _, c1))| (l0, c0, c1, t))
+        .collect()
+    };
+    for (i, (pos, name, local, ctx)) in idents.iter().enumerate() {
       if i % stride != 0 || !seen.insert((pos.0, pos.1)) {
         continue;
       }
@@ -543,12 +568,27 @@ impl Svc {
       ));
       let r = samlang_services::query::all_references(&self.state, &m, *pos);
       items.push(format!(
-        "refs@{at}:{hn}:{}={}",
+        "refs@{at}:{hn}:{}:{ctx}={}",
         if *local { "L" } else { "G" },
         if r.is_empty() { "none".to_string() } else { r.iter().map(|l| self.loc_str(l)).collect::<Vec<_>>().join(",") }
       ));
-      let h = samlang_services::query::hover(&self.state, &m, *pos);
-      items.push(format!("hover@{at}={}", h.map(|h| self.loc_str(&h.location)).unwrap_or("none".into())));
+      // hover at EVERY position inside the identifier token [s, e): first, interior and last byte
+      let tok = toks.iter().find(|(l, c0, c1, _)| *l == pos.0 && *c0 <= pos.1 && pos.1 < *c1);
+      let (ts, te) = match tok {
+        Some((_, c0, c1, _)) => (*c0, *c1),
+        None => (pos.1, pos.1 + name.len() as u32),
+      };
+      for c in ts..te.max(ts + 1) {
+        let p = Position(pos.0, c);
+        let h = samlang_services::query::hover(&self.state, &m, p);
+        items.push(format!(
+          "hover@{}.{c}:{}.{ts}-{}.{te}:{hn}:{ctx}={}",
+          pos.0,
+          pos.0,
+          pos.0,
+          h.map(|h| self.loc_str(&h.location)).unwrap_or("none".into())
+        ));
+      }
     }
     if let Some(f) = samlang_services::query::folding_ranges(&self.state, &m) {
       if !f.is_empty() {
@@ -593,7 +633,7 @@ impl Svc {
     }
     // rename at (a sample of) local identifiers: the rewritten module must still parse
     let mut renamed = 0;
-    for (pos, _, local) in &idents {
+    for (pos, _, local, _) in &idents {
       if !*local || renamed >= 6 {
         continue;
       }
